@@ -49,6 +49,10 @@ def gen_value(rng):
     return rng.choice(EXPRS)
 
 
+def gen_value_simple(rng):
+    return rng.choice([0, 1, "again", True, None, 2.5, "x y"])
+
+
 def expressible(v):
     if isinstance(v, str):
         if '"' in v and "'" in v:
@@ -122,6 +126,13 @@ def gen_long(rng):
                     name = "v%d_%d_%d" % (i, ti, k)
                     pubs.append({name: v})
                     pubvars.append(name)
+            if len(pubs) >= 2 and rng.random() < 0.25:
+                # the same name assigned twice in one publish, with a reader of it in between
+                first = list(pubs[0])[0]
+                pubs.insert(1, {"r%d_%d" % (i, ti): "<%% ctx(%s) %%>" % first})
+                again = [x for x in (0, 1, "again", True, 2.5, "x y") if {first: x} not in pubs]
+                pubs.append({first: rng.choice(again)})  # (an identical entry twice is refused by the long form's schema)
+                pubvars.append("r%d_%d" % (i, ti))
             if pubs:
                 tr["publish"] = pubs
             do = rng.sample(later, min(len(later), rng.choice([0, 1, 1, 2]))) if later else []
@@ -170,8 +181,12 @@ def to_short(wf, rng):
 def observe(wf, seed):
     """everything the property compares, for one definition"""
     o = {}
-    spec = native_specs.WorkflowSpec(copy.deepcopy(wf))
-    rep = spec.inspect()
+    try:
+        spec = native_specs.WorkflowSpec(copy.deepcopy(wf))
+        rep = spec.inspect()
+    except Exception as e:  # a notation the loader chokes on is an observation like any other
+        o["accepted"] = "loading raised %s" % type(e).__name__
+        return o
     o["accepted"] = not rep
     o["report_categories"] = sorted(rep.keys())
     try:
